@@ -16,6 +16,9 @@ type State struct {
 	env    map[ssa.Value]Value
 	heap   map[string]*MemNode
 	defers []deferred
+	// derived lists literals that were added to pc after being proved (assert-then-assume); they are implied by
+	// the rest of pc and are left out of vacuity covers.
+	derived []*smt.Term
 }
 
 type deferred struct {
@@ -35,12 +38,13 @@ func (s *State) clone() *State {
 		n.heap[k] = v
 	}
 	n.defers = s.defers[:len(s.defers):len(s.defers)]
+	n.derived = s.derived[:len(s.derived):len(s.derived)]
 	return n
 }
 
 // fork shares env (used across a call boundary where the callee gets its own env).
 func (s *State) withEnv(env map[ssa.Value]Value) *State {
-	return &State{pc: s.pc, env: env, heap: s.heap, defers: nil}
+	return &State{pc: s.pc, env: env, heap: s.heap, defers: nil, derived: s.derived}
 }
 
 func (e *Engine) assume(st *State, t *smt.Term) {
@@ -86,6 +90,11 @@ func (e *Engine) learnBounds(st *State, t *smt.Term) {
 		}
 		if lo && hi {
 			e.markSmall(v)
+			for _, p := range st.pc {
+				if (p.Op == smt.OSle || p.Op == smt.OSlt) && p.Args[1] == v && e.isNonNeg(p.Args[0]) {
+					e.nonNegSet[v.ID] = true
+				}
+			}
 		}
 	}
 }
@@ -142,6 +151,7 @@ func (e *Engine) merge2(a, b *State) *State {
 	if !disj.IsTrue() {
 		out.pc = append(out.pc, disj)
 	}
+	out.derived = append(append([]*smt.Term{}, a.derived...), b.derived...)
 	litsO := append([]*smt.Term{}, lo...)
 	if len(ld) == 1 {
 		litsO = append(litsO, c.Not(ld[0]))
